@@ -18,10 +18,18 @@ Definition side (e : seg) (p : pt) : Q := cross2 (vsub (snd e) (fst e)) (vsub p 
 
 (* the closed convex region bounded by the polygon: on the left of every edge (counter-clockwise
    vertex order) or on the right of every edge (clockwise order) *)
+Definition all_left (P : polygon) (p : pt) : bool := forallb (fun e => Qle_bool 0 (side e p)) (edges P).
+Definition all_right (P : polygon) (p : pt) : bool := forallb (fun e => Qle_bool (side e p) 0) (edges P).
 Definition in_poly_b (P : polygon) (p : pt) : bool :=
   match edges P with
   | [] => false
-  | es => forallb (fun e => Qle_bool 0 (side e p)) es || forallb (fun e => Qle_bool (side e p) 0) es
+  | _ => all_left P p || all_right P p
+  end.
+(* both points in the region, on the same side of every edge *)
+Definition both_in_b (P : polygon) (p1 p2 : pt) : bool :=
+  match edges P with
+  | [] => false
+  | _ => (all_left P p1 && all_left P p2) || (all_right P p1 && all_right P p2)
   end.
 
 Definition in_mesh_b (m : mesh) (p : pt) : bool := existsb (fun P => in_poly_b P p) m.
@@ -51,7 +59,7 @@ Fixpoint chain_ok (m : mesh) (a b : pt) (ts : list Q) : bool :=
   match ts with
   | t1 :: (t2 :: _) as rest =>
     Qle_bool t1 t2 &&
-    existsb (fun P => in_poly_b P (at_param a b t1) && in_poly_b P (at_param a b t2)) m &&
+    existsb (fun P => both_in_b P (at_param a b t1) (at_param a b t2)) m &&
     chain_ok m a b rest
   | _ => true
   end.
